@@ -119,7 +119,7 @@ class Check(core.CheckBase):  # pylint: disable=too-many-public-methods
     # ------------------------------------------------------------------ workload
     def cases(self):  # pylint: disable=too-many-branches,too-many-locals
         index = 0
-        rng = self.rng
+        rng = self.plan_rng
         for name, factory in sorted(self.factories.items()):
             size = factory.get_byte_num()
             if size <= 2:
